@@ -70,9 +70,10 @@ type Conf struct {
 	ForceAuthn   *bool  `json:"force_authn,omitempty"`
 	AuthnCtx     *Ctx   `json:"authn_ctx,omitempty"`
 
-	// IDPLayout: how the SP's copy of the IdP metadata lists its endpoints: "" (redirect, POST),
-	// "post-first" (POST, redirect), "decoys" (endpoints of OTHER bindings with other locations
-	// before and between them).  The destination must be the endpoint of the requested binding.
+	// IDPLayout: how the SP's copy of the IdP metadata lists its endpoints (see idpSpec): one or
+	// several IDPSSODescriptors, endpoint order, endpoints of other bindings, the binding in use
+	// only in a later descriptor, several endpoints of one binding.  The destination must be the
+	// first endpoint of the requested binding in document order over all descriptors.
 	IDPLayout string `json:"idp_layout,omitempty"`
 	// Fields no clause mentions; varied, never judged.
 	LogoutBindings     []string `json:"logout_bindings,omitempty"`
@@ -261,7 +262,7 @@ func genConf(t *rapid.T) Conf {
 			ClassRef:   rapid.SampledFrom(classRefs).Draw(t, "cref"),
 		}
 	}
-	c.IDPLayout = rapid.SampledFrom([]string{"", "", "post-first", "decoys"}).Draw(t, "layout")
+	c.IDPLayout = rapid.SampledFrom(append([]string{"", ""}, idpLayouts...)).Draw(t, "layout")
 	c.LogoutBindings = rapid.SampledFrom([][]string{nil, {saml.HTTPPostBinding}, {saml.HTTPRedirectBinding, saml.HTTPPostBinding}, {saml.HTTPRedirectBinding}}).Draw(t, "logoutbindings")
 	c.AllowIDPInitiated = rapid.Bool().Draw(t, "idpinit")
 	c.ValidDurationS = rapid.SampledFrom([]int{0, 0, 3600, 86400 * 30}).Draw(t, "validdur")
@@ -439,23 +440,15 @@ func build(c Conf) (*parties, error) {
 		{Binding: saml.HTTPRedirectBinding, Location: c.IDPSLORedirect},
 		{Binding: saml.HTTPPostBinding, Location: c.IDPSLOPost},
 	}
-	d0 := &idpMD.IDPSSODescriptors[0]
-	switch c.IDPLayout {
-	case "post-first":
-		for _, l := range []*[]saml.Endpoint{&d0.SingleSignOnServices, &d0.SingleLogoutServices} {
-			if len(*l) == 2 {
-				(*l)[0], (*l)[1] = (*l)[1], (*l)[0]
-			}
-		}
-	case "decoys":
-		decoy := func(b string, n int) saml.Endpoint {
-			return saml.Endpoint{Binding: b, Location: fmt.Sprintf("https://decoy%d.example/wrong", n)}
-		}
-		for _, l := range []*[]saml.Endpoint{&d0.SingleSignOnServices, &d0.SingleLogoutServices} {
-			if len(*l) == 2 {
-				*l = []saml.Endpoint{decoy(saml.HTTPArtifactBinding, 1), (*l)[0], decoy(saml.SOAPBinding, 2), decoy("urn:example:binding", 3), (*l)[1], decoy("urn:oasis:names:tc:SAML:2.0:bindings:PAOS", 4)}
-			}
-		}
+	// the descriptors the SP sees are laid out by the harness's own specification of the metadata
+	spec := idpSpec(c)
+	proto := idpMD.IDPSSODescriptors[0] // keeps the published key descriptors and name ID formats
+	idpMD.IDPSSODescriptors = nil
+	for _, ds := range spec {
+		d := proto
+		d.SingleSignOnServices = append([]saml.Endpoint(nil), ds.sso...)
+		d.SingleLogoutServices = append([]saml.Endpoint(nil), ds.slo...)
+		idpMD.IDPSSODescriptors = append(idpMD.IDPSSODescriptors, d)
 	}
 	k := fix.Get(c.Key)
 	sp := &saml.ServiceProvider{
@@ -582,16 +575,69 @@ func create(p *parties, m Msg) (e emitted) {
 	return e
 }
 
-func endpointOf(c Conf, m Msg) string {
-	switch m.Type {
-	case "authn":
-		return c.IDPSSO
-	default:
-		if m.Binding == "redirect" {
-			return c.IDPSLORedirect
-		}
-		return c.IDPSLOPost
+// descSpec is one IDPSSODescriptor of the metadata the SP is configured with.
+type descSpec struct{ sso, slo []saml.Endpoint }
+
+var idpLayouts = []string{"", "post-first", "decoys", "later-descriptor", "empty-first", "other-bindings-first", "split", "duplicates"}
+
+// idpSpec is the harness's specification of the IdP metadata for a layout.  Every layout offers
+// every binding somewhere; the configured destination of a binding is the FIRST matching endpoint in
+// document order over ALL descriptors (how this library reads "the IdP's endpoint for the binding").
+func idpSpec(c Conf) []descSpec {
+	ssoR := saml.Endpoint{Binding: saml.HTTPRedirectBinding, Location: c.IDPSSO}
+	ssoP := saml.Endpoint{Binding: saml.HTTPPostBinding, Location: c.IDPSSO}
+	sloR := saml.Endpoint{Binding: saml.HTTPRedirectBinding, Location: c.IDPSLORedirect}
+	sloP := saml.Endpoint{Binding: saml.HTTPPostBinding, Location: c.IDPSLOPost}
+	decoy := func(b string, n int) saml.Endpoint {
+		return saml.Endpoint{Binding: b, Location: fmt.Sprintf("https://decoy%d.example/wrong", n)}
 	}
+	others := func(n int) []saml.Endpoint {
+		return []saml.Endpoint{decoy(saml.HTTPArtifactBinding, n), decoy(saml.SOAPBinding, n+1), decoy("urn:example:binding", n+2)}
+	}
+	switch c.IDPLayout {
+	case "post-first":
+		return []descSpec{{sso: []saml.Endpoint{ssoP, ssoR}, slo: []saml.Endpoint{sloP, sloR}}}
+	case "decoys":
+		mix := func(a, b saml.Endpoint) []saml.Endpoint {
+			return []saml.Endpoint{decoy(saml.HTTPArtifactBinding, 1), a, decoy(saml.SOAPBinding, 2), decoy("urn:example:binding", 3), b, decoy("urn:oasis:names:tc:SAML:2.0:bindings:PAOS", 4)}
+		}
+		return []descSpec{{sso: mix(ssoR, ssoP), slo: mix(sloR, sloP)}}
+	case "later-descriptor": // the first descriptor has endpoints, but none of the binding in use
+		return []descSpec{{sso: []saml.Endpoint{ssoP}, slo: []saml.Endpoint{sloR}}, {sso: []saml.Endpoint{ssoR}, slo: []saml.Endpoint{sloP}}}
+	case "empty-first": // a descriptor without any endpoint in front
+		return []descSpec{{}, {sso: []saml.Endpoint{ssoR, ssoP}, slo: []saml.Endpoint{sloR, sloP}}}
+	case "other-bindings-first": // the first descriptor offers only other bindings
+		return []descSpec{{sso: others(10), slo: others(20)}, {}, {sso: []saml.Endpoint{ssoR, ssoP}, slo: []saml.Endpoint{sloR, sloP}}}
+	case "split": // every binding in a descriptor of its own, logout before sign-on
+		return []descSpec{{slo: []saml.Endpoint{sloP}}, {sso: []saml.Endpoint{ssoR}}, {slo: []saml.Endpoint{sloR}}, {sso: []saml.Endpoint{ssoP}}}
+	case "duplicates": // several endpoints of one binding: the first in document order is the configured one
+		return []descSpec{
+			{sso: []saml.Endpoint{ssoR, decoy(saml.HTTPRedirectBinding, 30), ssoP, decoy(saml.HTTPPostBinding, 31)}, slo: []saml.Endpoint{sloP}},
+			{sso: []saml.Endpoint{decoy(saml.HTTPRedirectBinding, 32), decoy(saml.HTTPPostBinding, 33)}, slo: []saml.Endpoint{decoy(saml.HTTPPostBinding, 34), sloR, decoy(saml.HTTPRedirectBinding, 35)}},
+		}
+	}
+	return []descSpec{{sso: []saml.Endpoint{ssoR, ssoP}, slo: []saml.Endpoint{sloR, sloP}}}
+}
+
+// endpointOf derives the configured destination from the specification: the first endpoint of the
+// binding in use, in document order over all descriptors ("" when the metadata offers none).
+func endpointOf(c Conf, m Msg) string {
+	binding := saml.HTTPPostBinding
+	if m.Binding == "redirect" {
+		binding = saml.HTTPRedirectBinding
+	}
+	for _, d := range idpSpec(c) {
+		l := d.slo
+		if m.Type == "authn" {
+			l = d.sso
+		}
+		for _, e := range l {
+			if e.Binding == binding {
+				return e.Location
+			}
+		}
+	}
+	return ""
 }
 
 func paramOf(m Msg) (mine, other string) {
@@ -1257,10 +1303,29 @@ func enumPairs(_ string, emit func(Case)) {
 	}
 }
 
+// enumLayouts: every IdP metadata layout x every message kind (signing off and on), plus a sequence
+// of all six kinds on one SP per layout.
+func enumLayouts(_ string, emit func(Case)) {
+	for _, layout := range idpLayouts {
+		for _, sig := range []string{"", dsig.RSASHA256SignatureMethod} {
+			cf := baseConf()
+			cf.IDPLayout, cf.SigMethod = layout, sig
+			cf.IDPSSO = "https://idp.example.org/sso?tenant=1"
+			var seq []Msg
+			for i, k := range kinds {
+				m := Msg{Type: k[0], Binding: k[1], RelayState: fmt.Sprintf("rs&%d", i), NameID: "u@example.com", RequestID: "id-1"}
+				emit(Case{Conf: cf, Msgs: []Msg{m}, Rand: fixedRand, Chunk: 64})
+				seq = append(seq, m)
+			}
+			emit(Case{Conf: cf, Msgs: seq, Rand: strings.Repeat(fixedRand, 6), Chunk: 64})
+		}
+	}
+}
+
 // enumCR: carriage returns in every text- and attribute-position content, on every message kind,
 // with every IdP metadata layout.
 func enumCR(_ string, emit func(Case)) {
-	for _, layout := range []string{"", "post-first", "decoys"} {
+	for _, layout := range []string{"", "decoys", "later-descriptor"} {
 		for _, v := range []string{"CN=Jane Doe\r\nOU=People", "trailing\r", "\rleading", "a\rb", "\r"} {
 			for _, k := range kinds {
 				cf := baseConf()
@@ -1276,7 +1341,7 @@ func enumCR(_ string, emit func(Case)) {
 
 var prop = &pbt.Prop[Case]{
 	ID: "C12",
-	Rule: "cases: SP/IdP configurations (entity ID set/unset/markup-bearing, endpoints with and without query and fragment, signing off / RSA / ECDSA with each method, every NameID format, ForceAuthn, RequestedAuthnContext) x IdP metadata layouts (endpoint order, decoy endpoints of other bindings) x sequences of 1..20 creations of AuthnRequest / LogoutRequest / LogoutResponse in the redirect and POST bindings on ONE ServiceProvider value, optionally with configuration changes between calls, all results kept and judged after the last call x relay states (empty, plain, URL metacharacters, URLs, >80 bytes, control characters, hostile XML/HTML tokens, non-ASCII) x name IDs / request IDs over XML-1.0 strings x a recording random source fed with drawn octets (or the default source). " +
+	Rule: "cases: SP/IdP configurations (entity ID set/unset/markup-bearing, endpoints with and without query and fragment, signing off / RSA / ECDSA with each method, every NameID format, ForceAuthn, RequestedAuthnContext) x IdP metadata layouts (one or several IDPSSODescriptors, endpoint order, other bindings first, the binding in use only in a later descriptor, duplicate endpoints) x sequences of 1..20 creations of AuthnRequest / LogoutRequest / LogoutResponse in the redirect and POST bindings on ONE ServiceProvider value, optionally with configuration changes between calls, all results kept and judged after the last call x relay states (empty, plain, URL metacharacters, URLs, >80 bytes, control characters, hostile XML/HTML tokens, non-ASCII) x name IDs / request IDs over XML-1.0 strings x a recording random source fed with drawn octets (or the default source). " +
 		"oracle: own query splitter / HTML DOM / base64+inflate / XML token reader recover exactly one payload and one byte-equal RelayState, pre-existing parameters intact, no fragment introduced, message fields equal the configuration; the library IdP (registered with the SP's published metadata) validates every AuthnRequest and reports the same relay state and ID; every creation draws >= 16 octets, IDs are pairwise distinct, re-running with the same octets gives the same ID and inverting one bit of the first 16 octets changes it. " +
 		"non-trivial: a relay state / name ID / request ID with a URL or HTML metacharacter, a non-ASCII or control rune or more than 80 bytes, or an endpoint that already has a query, or a sequence of >= 2 creations. distinct: sha256 of the JSON case.",
 	Gen:   gen,
@@ -1287,6 +1352,7 @@ var prop = &pbt.Prop[Case]{
 		{Name: "relay-state-single-octets-0x01..0x7f", Each: enumRelayBytes},
 		{Name: "message-kind-pairs-judged-after-the-sequence", Each: enumPairs},
 		{Name: "carriage-return-contents-x-kinds-x-idp-layouts", Each: enumCR},
+		{Name: "idp-metadata-layouts-x-message-kinds", Each: enumLayouts},
 	},
 	Assumptions: []string{
 		"'+' in a query component is read as a space (application/x-www-form-urlencoded, what every mainstream receiver does); see internal/urlw",
@@ -1295,7 +1361,7 @@ var prop = &pbt.Prop[Case]{
 		"name IDs and request IDs are XML-1.0-representable strings (DESIGN 2.6); name ID, issuer and class reference (text positions) must come back exactly, carriage returns included, on every binding; the request ID (attribute position) must come back exactly except that a literal TAB / LF may read as a space (XML 3.3.3; property silent) - a carriage return must survive there too; relay states are any valid UTF-8 without NUL",
 		"results are judged only after the whole sequence has been created: every []byte / *url.URL a call returned is kept, compared with a copy taken at creation time, and decoded then",
 		"between two creations the application may change public fields of the one ServiceProvider value (EntityID, AuthnNameIDFormat, ForceAuthn, RequestedAuthnContext); each message must reflect the configuration in force when it was created (the IdP is re-registered with the SP's then-current metadata)",
-		"the SP's copy of the IdP metadata may list endpoints in either order and contain endpoints of other bindings with other locations; the destination is the endpoint of the requested binding (never two endpoints with the same binding)",
+		"the SP's copy of the IdP metadata is laid out by the harness (idpSpec): one or several IDPSSODescriptors, either endpoint order, endpoints of other bindings, the binding in use only in a later descriptor, several endpoints of one binding; the configured destination is the first endpoint of the requested binding in document order over all descriptors; every layout offers every binding",
 		"LogoutBindings, AllowIDPInitiated, MetadataValidDuration and DefaultRedirectURI are varied and never judged",
 		"POST forms: the relay state is compared with the DOM value modulo the HTML parser's own CR -> LF rewriting of literal attribute text",
 		"an empty relay state may be emitted as no RelayState parameter or as one empty parameter (both read back as empty)",
